@@ -28,16 +28,16 @@ REGIONS = {
         (45, 130, ["C01", "C08"]),            # BasicBlock
         (131, 232, ["C01", "C13"]),           # Model
         (234, 302, ["C03", "C05", "C13"]),    # SensorModel
-        (307, 346, ["C09", "C17"]),           # assert_valid_covariance, nearest_positive_definite
-        (348, 531, ["C04", "C03", "C05", "C13"]),   # EKF construction
-        (533, 574, ["C03"]),                  # jacobians
-        (575, 619, ["C04", "C09"]),           # process_model
-        (620, 631, ["C06"]),                  # remove_innovation
-        (632, 690, ["C05", "C06", "C09"]),    # sensor_model
-        (692, 748, ["C14", "C01"]),           # compile / compile_ekf
-        (763, 936, ["C17", "C16"]),           # adapter construction, flatten
-        (937, 1072, ["C17", "C16"]),          # fit, mahalanobis, score
-        (1073, 1245, ["C16", "C17"]),         # transform, params
+        (307, 355, ["C09", "C17"]),           # assert_valid_covariance, nearest_positive_definite
+        (357, 540, ["C04", "C03", "C05", "C13"]),   # EKF construction
+        (542, 583, ["C03"]),                  # jacobians
+        (584, 628, ["C04", "C09"]),           # process_model
+        (629, 640, ["C06"]),                  # remove_innovation
+        (641, 705, ["C05", "C06", "C09"]),    # sensor_model
+        (707, 763, ["C14", "C01"]),           # compile / compile_ekf
+        (778, 951, ["C17", "C16"]),           # adapter construction, flatten
+        (952, 1087, ["C17", "C16"]),          # fit, mahalanobis, score
+        (1088, 1260, ["C16", "C17"]),         # transform, params
     ],
     "py/formak/runtime.py": [(1, 100, ["C10", "C11"])],
     "py/formak/common.py": [(18, 103, ["C14"]), (104, 235, ["C13"])],
